@@ -183,8 +183,9 @@ def run_case(case, ctx):
         except Exception:
             ctx.count("corpus_not_utf8")
             return
+    mc = ["preserve", "upper", "lower"][case["seed"] % 3]
     try:
-        base = lasio.read(text, mnemonic_case="preserve")
+        base = lasio.read(text, mnemonic_case=mc)
     except Exception:
         ctx.count("base_unreadable")
         return
@@ -227,7 +228,7 @@ def run_case(case, ctx):
         ctx.count("reads_with_flag")
         _skipped[0] = 0
         try:
-            las = lasio.read(jtext, ignore_header_errors=True, mnemonic_case="preserve")
+            las = lasio.read(jtext, ignore_header_errors=True, mnemonic_case=mc)
         except Exception as e:
             ctx.violation("flag-set-read-raised:%s:%s" % (type(e).__name__, "+".join(sorted({k for _, k, *_ in plan}))),
                           "read(ignore_header_errors=True) raised %r" % (e,), detail)
@@ -257,7 +258,7 @@ def run_case(case, ctx):
         # ---- without the flag ------------------------------------------------------------------------------------------
         ctx.count("reads_without_flag")
         try:
-            lasio.read(jtext, mnemonic_case="preserve")
+            lasio.read(jtext, mnemonic_case=mc)
         except lasio.exceptions.LASHeaderError as e:
             ctx.count("without_flag_header_errors")
             msg = str(e)
